@@ -232,7 +232,8 @@ def gen_hist(rng):
     ngens = rng.randint(1, 2)
     task, labels = _id_task(rng, list(range(ngens)), files, "t0", rng.randint(2, 12), False)
     return {"scenario": "hist", "prop": "C11", "labels": labels, "oracles": ORACLES,
-            "cfg": {"flavour": rng.choice(["inc", "inc", "opaque"]), "salt": rng.getrandbits(32), "chunk_max": rng.choice([0, 0, 3]), "fs_seed": rng.getrandbits(30)},
+            "cfg": {"flavour": rng.choice(["inc", "inc", "opaque"]), "salt": rng.getrandbits(32), "chunk_max": rng.choice([0, 0, 3]), "fs_seed": rng.getrandbits(30),
+                    "drop": rng.random() < 0.5},
             "gens": ngens, "fs": {"files": files}, "tasks": [task]}
 
 
